@@ -6,7 +6,7 @@
   Totality: every function of the model is a total Lean function (structural recursion;
   the places where Go could index out of range return `Err.panic`, see `C12_no_model_panic*`).
 -/
-import Influx.Lemmas.LineProtocolSound
+import Influx.Lemmas.LineProtocolSortPath
 
 namespace Influx.Props.C12
 open Influx.LP Influx.LP.Trace12 Influx.Spec.C12 Influx.Generated.LineProto
@@ -93,15 +93,36 @@ theorem C12_points_from_lines (buf : Bytes) (dt : Int) (prec : String) (p : Poin
   obtain ⟨l, hl⟩ := mem_okPoints _ p h
   exact ⟨l, (mem_parseLines buf dt prec l _ hl).symm⟩
 
-/-- **C12 on the model** (partial): the statement checker accepts the model's answer for every
-    input, precision and default time — under the hypothesis, still to be discharged, that the
-    accessors of the accepted points do not hit the modelled out-of-range slice in
-    `StringValue`/`parseTags` and that the unescaped tag keys are distinct (the parser compares
-    the escaped keys).  Everything else (measurement, fields, key length, timestamp, errors)
-    is proved outright. -/
-theorem C12_holdsOn_partial (buf : Bytes) (dt : Int) (prec : String)
-    (hyp : ∀ p ∈ okPoints (parseLines buf dt prec),
-      (pointObs p).clean = true ∧ distinct ((pointObs p).tags.map (·.key)) = true) :
+/-- **unique tag keys**: the keys `Tags()` reports for an accepted point are pairwise distinct
+    (the parser compares the *escaped* keys; un-escaping is injective on scanned keys) -/
+theorem C12_unique_tag_keys (line : Bytes) (dt : Int) (prec : String) (p : Point)
+    (h : parsePoint line dt prec = .ok p) :
+    distinct ((pointObs p).tags.map (·.key)) = true := by
+  have := distinct_tags_of_accepted line dt prec p h
+  simpa [pointObs, pointTags, parseTags_isSome] using this
+
+/-- **the accessors of an accepted point do not panic**: `Tags()` never indexes out of range (on
+    any key), and — since fixes/C12-lone-quote-value-panic.patch — no string field has the lone
+    quote as value, so `StringValue()`'s `valueBuf[1:len-1]` is in range -/
+theorem C12_accessors_total (line : Bytes) (dt : Int) (prec : String) (p : Point)
+    (h : parsePoint line dt prec = .ok p) : (pointObs p).clean = true := by
+  obtain ⟨_, _, _, _, _, _, _, hw, _⟩ := parsePoint_ok_inv line dt prec p h
+  simp only [pointObs, pointTags, parseTags_isSome, Option.isSome_some, Bool.true_and, List.all_eq_true]
+  intro f hf
+  have := (walkFieldsCheck_bound _ _ _ hw f hf).2
+  unfold fieldClean
+  cases ht : f.typ <;> simp
+  exact this ht
+
+/-- `ParseKeyBytes` returns on every byte string -/
+theorem C12_parseKey_total (buf : Bytes) : holdsOnPK (parseKeyBytes buf) = true :=
+  parseKeyBytes_isSome buf
+
+/-- **C12 on the model**: for every byte string, precision and default time the statement
+    checker accepts the model's answer: the call returns; every returned point has a non-empty
+    measurement, at least one field, unique tag keys, key + field key within the maximum, a
+    representable timestamp, accessors that return; the error names exactly the rejected lines. -/
+theorem C12_holdsOn (buf : Bytes) (dt : Int) (prec : String) :
     holdsOn (modelObs prec dt buf) = true := by
   unfold holdsOn modelObs
   simp only [Bool.and_eq_true, List.all_eq_true, List.length_map]
@@ -109,10 +130,9 @@ theorem C12_holdsOn_partial (buf : Bytes) (dt : Int) (prec : String)
   intro o ho
   obtain ⟨p, hp, rfl⟩ := List.mem_map.mp ho
   obtain ⟨l, hl⟩ := C12_points_from_lines buf dt prec p hp
-  obtain ⟨hclean, hdist⟩ := hyp p hp
   unfold wellFormed
   simp only [Bool.and_eq_true, Bool.or_eq_true, Bool.not_eq_true', List.all_eq_true, decide_eq_true_eq]
-  refine ⟨⟨⟨⟨⟨hclean, ?_⟩, ?_⟩, hdist⟩, ?_⟩, ?_⟩
+  refine ⟨⟨⟨⟨⟨C12_accessors_total l dt prec p hl, ?_⟩, ?_⟩, C12_unique_tag_keys l dt prec p hl⟩, ?_⟩, ?_⟩
   · have := C12_measurement_nonempty l dt prec p hl
     simpa [pointObs] using this
   · have := C12_has_field l dt prec p hl
@@ -125,9 +145,8 @@ theorem C12_holdsOn_partial (buf : Bytes) (dt : Int) (prec : String)
     | false => left; rfl
     | true => right; exact C12_timestamp l dt prec p hl hdt
 
--- non-vacuity of the hypothesis: it holds of a buffer with an accepted point, a rejected
--- line, a comment and a blank line
-example : ∀ p ∈ okPoints (parseLines (str "m,b=2,a=1 f=1i,g=\"x\" 5\n# c\n\nbad line") 7 "ns"),
-    (pointObs p).clean = true ∧ distinct ((pointObs p).tags.map (·.key)) = true := by decide
+/-- the line that made `Fields()`/`StringValue()` panic before the fix is rejected now -/
+theorem C12_lone_quote_rejected :
+    okPoints (parseLines (str "m \\\\=\"a=\"") 0 "ns") = [] := by decide
 
 end Influx.Props.C12
